@@ -40,53 +40,76 @@ def _hash(d):
     return {p.name: hashlib.sha256(p.read_bytes()).hexdigest() for p in sorted(Path(d).iterdir()) if p.is_file()}
 
 
-def impl(case):
+ALF_OF = {'spike_times.npy': 'spikes.samples.npy', 'spike_templates.npy': 'spikes.templates.npy',
+          'spike_clusters.npy': 'spikes.clusters.npy', 'amplitudes.npy': 'spikes.amps.npy',
+          'channel_map.npy': 'channels.rawInd.npy', 'channel_positions.npy': 'channels.localCoordinates.npy',
+          'channel_shanks.npy': 'channels.shanks.npy', 'channel_probe.npy': 'channels.probes.npy',
+          'templates.npy': 'templates.waveforms.npy', 'template_ind.npy': 'templates.waveformsChannels.npy'}
+LAYOUT_KEYS = ('spike_samples', 'spike_times', 'amplitudes', 'spike_templates', 'spike_clusters', 'channel_mapping',
+               'channel_positions', 'channel_shanks', 'channel_probes', 'templates', 'template_cols', 'wm', 'wmi',
+               'similar', 'n_spikes', 'n_channels', 'traces')
+
+
+def _load_dir(d, files, case):
     from phylib.io.model import load_model
+    d.mkdir(exist_ok=True)
+    for name, f in files.items():
+        np.save(d / name, _arr(f))
+    dat = []
+    for i, part in enumerate(case.get('raw') or []):
+        p = d / ('raw%d.dat' % i)
+        with open(p, 'wb') as fh:
+            fh.write(b'\1' * case['offset'])
+            fh.write(np.array(part, dtype='int16').tobytes())
+        dat.append(p.name)
+    for name, text in (case.get('text') or {}).items():
+        (d / name).write_text(text)
+    (d / 'params.py').write_text('dat_path = %r\nn_channels_dat = %d\ndtype = "int16"\noffset = %d\nsample_rate = %r\nhp_filtered = False\n' % (
+        dat, case['ncd'], case['offset'], case['rate']))
+    before = _hash(d)
+    m = load_model(d / 'params.py')
+    try:
+        def A(x, scale=True):
+            return None if x is None else _cells(x)
+        out = dict(
+            spike_samples=[int(x) for x in m.spike_samples], spike_times=[float(x) for x in m.spike_times],
+            amplitudes=A(m.amplitudes), spike_templates=A(m.spike_templates), spike_clusters=A(m.spike_clusters),
+            channel_mapping=A(m.channel_mapping), channel_positions=A(m.channel_positions),
+            channel_shanks=A(m.channel_shanks), channel_probes=A(m.channel_probes),
+            templates=A(m.sparse_templates.data) if m.sparse_templates is not None else None,
+            template_cols=A(m.sparse_templates.cols) if m.sparse_templates is not None and m.sparse_templates.cols is not None else None,
+            wm=A(m.wm), wmi=A(m.wmi), similar=A(m.similar_templates),
+            wm_wmi_identity=bool(np.allclose(np.asarray(m.wm, dtype=float) @ np.asarray(m.wmi, dtype=float), np.eye(m.n_channels))),
+            spike_attributes={k: _cells(v) for k, v in m.spike_attributes.items()},
+            metadata={f: {str(k): v for k, v in dd.items()} for f, dd in m.metadata.items()},
+            n_spikes=int(m.n_spikes), n_channels=int(m.n_channels), duration=float(m.duration),
+            features=A(m.sparse_features.data) if m.sparse_features is not None else None,
+            feature_cols=A(m.sparse_features.cols) if m.sparse_features is not None and m.sparse_features.cols is not None else None,
+            tfeatures=A(m.sparse_template_features.data) if m.sparse_template_features is not None else None)
+        if m.traces is not None:
+            n = m.traces.shape[0]
+            out['traces'] = np.asarray(m.traces[:]).astype(int).tolist()
+            out['traces_rows'] = np.asarray(m.traces[list(range(1, n, 2))]).astype(int).tolist() if n > 1 else []
+        else:
+            out['traces'] = None
+    finally:
+        m.close()
+    after = _hash(d)
+    out['changed'] = sorted(k for k in before if before[k] != after.get(k))
+    out['created'] = sorted(k for k in after if k not in before)
+    return out
+
+
+def impl(case):
     with C.scratch_dir() as d:
-        for name, f in case['files'].items():
-            np.save(d / name, _arr(f))
-        dat = []
-        for i, part in enumerate(case.get('raw') or []):
-            p = d / ('raw%d.dat' % i)
-            with open(p, 'wb') as fh:
-                fh.write(b'\1' * case['offset'])
-                fh.write(np.array(part, dtype='int16').tobytes())
-            dat.append(p.name)
-        for name, text in (case.get('text') or {}).items():
-            (d / name).write_text(text)
-        (d / 'params.py').write_text('dat_path = %r\nn_channels_dat = %d\ndtype = "int16"\noffset = %d\nsample_rate = %r\nhp_filtered = False\n' % (
-            dat, case['ncd'], case['offset'], case['rate']))
-        before = _hash(d)
-        m = load_model(d / 'params.py')
-        try:
-            def A(x, scale=True):
-                return None if x is None else _cells(x)
-            out = dict(
-                spike_samples=[int(x) for x in m.spike_samples], spike_times=[float(x) for x in m.spike_times],
-                amplitudes=A(m.amplitudes), spike_templates=A(m.spike_templates), spike_clusters=A(m.spike_clusters),
-                channel_mapping=A(m.channel_mapping), channel_positions=A(m.channel_positions),
-                channel_shanks=A(m.channel_shanks), channel_probes=A(m.channel_probes),
-                templates=A(m.sparse_templates.data) if m.sparse_templates is not None else None,
-                template_cols=A(m.sparse_templates.cols) if m.sparse_templates is not None and m.sparse_templates.cols is not None else None,
-                wm=A(m.wm), wmi=A(m.wmi), similar=A(m.similar_templates),
-                wm_wmi_identity=bool(np.allclose(np.asarray(m.wm, dtype=float) @ np.asarray(m.wmi, dtype=float), np.eye(m.n_channels))),
-                spike_attributes={k: _cells(v) for k, v in m.spike_attributes.items()},
-                metadata={f: {str(k): v for k, v in dd.items()} for f, dd in m.metadata.items()},
-                n_spikes=int(m.n_spikes), n_channels=int(m.n_channels), duration=float(m.duration),
-                features=A(m.sparse_features.data) if m.sparse_features is not None else None,
-                feature_cols=A(m.sparse_features.cols) if m.sparse_features is not None and m.sparse_features.cols is not None else None,
-                tfeatures=A(m.sparse_template_features.data) if m.sparse_template_features is not None else None)
-            if m.traces is not None:
-                n = m.traces.shape[0]
-                out['traces'] = np.asarray(m.traces[:]).astype(int).tolist()
-                out['traces_rows'] = np.asarray(m.traces[list(range(1, n, 2))]).astype(int).tolist() if n > 1 else []
-            else:
-                out['traces'] = None
-        finally:
-            m.close()
-        after = _hash(d)
-        out['changed'] = sorted(k for k in before if before[k] != after.get(k))
-        out['created'] = sorted(k for k in after if k not in before)
+        out = _load_dir(d / 'ks', case['files'], case)
+        if case.get('also_alf'):
+            # load_layout_independent: the same arrays under ALF names (+ the times in seconds)
+            files = {ALF_OF.get(n, n): f for n, f in case['files'].items()}
+            st = case['files']['spike_times.npy']
+            files['spikes.times.npy'] = dict(dtype='float64', shape=st['shape'], data=[x / case['rate'] for x in st['data']])
+            out2 = _load_dir(d / 'alf', files, case)
+            out['layout_diff'] = sorted(k for k in LAYOUT_KEYS if out.get(k) != out2.get(k))
     return out
 
 
@@ -181,6 +204,8 @@ def judge(case, impl_res, ans):
             return 'SPEC: duration'
     elif ok['traces'] is not None:
         return 'SPEC: traces present without raw data'
+    if ok.get('layout_diff'):
+        return 'SPEC: the same arrays under ALF names load to different %s' % ok['layout_diff']
     return None
 
 
@@ -191,6 +216,8 @@ def nontrivial(case):
 def tally(rep, case, impl_res, ans):
     for k in case.get('tags', []):
         rep.count(k)
+    if case.get('also_alf'):
+        rep.count('loaded_under_both_layouts')
 
 
 def classify(case, impl_res, ans, why):
@@ -316,4 +343,9 @@ def make_case(rng, i):
 def gen(tier, rng):
     q = tier == 'quick'
     for i in range(400 if q else 6000):
-        yield make_case(rng, i)
+        c = make_case(rng, i)
+        st = c['files'].get('spike_times.npy')
+        if st is not None and not c.get('expect_reject') and 'float' not in st['dtype'] and i % 3 != 1 \
+                and not any(n.startswith(('spikes.', 'channels.', 'templates.w')) for n in c['files']):
+            c['also_alf'] = True      # load the same arrays a second time under ALF names
+        yield c
